@@ -12,8 +12,9 @@ ASSUME = [
     'bounded catalogue (see bounds): 1-2 tasks, 0-1 execution retries, one '
     'cycle point, integer cycling, localhost jobs, default poll intervals '
     '(PT15M) released by clock jumps',
-    'one environment event per main-loop iteration (no two messages batched '
-    'in the same iteration)',
+    'one environment event per main-loop iteration, except for the "burst" '
+    'deviation (a job message is queued without a scheduler iteration, so '
+    'that the next event is batched with it)',
     'deviation budget per execution as in bounds; in-flight messages may be '
     'delivered in any order; a *lost* message is only considered for '
     'started/succeeded/failed (a lost custom-output message can only be '
@@ -45,10 +46,10 @@ def catalogue(tier: str):
             ('one-retry-b2', 'a', {'a': R1}, ('a',), 'all', 2, None),
             ('custom', 'a:x => b', {'a': dict(O1)}, ('a',), 'all', 1, None),
             ('custom1-b2', 'a:x', {'a': dict(O1)}, ('a',), 'all', 2, None),
-            ('custom-retry', 'a:x => b', {'a': {**O1, **R1}}, ('a',), 'any',
-             1, None),
-            ('chain-fail', 'a => b', {}, ('a', 'b'), 'all', 2, None),
-            ('pair-retry', 'a & b => c', {'a': R1}, ('a',), 'all', 1, None),
+            ('custom1-retry', 'a:x', {'a': {**O1, **R1}}, ('a',), 'any', 1,
+             None),
+            ('chain-fail', 'a => b', {}, ('a', 'b'), 'all', 1, None),
+            ('chain-retry', 'a => b', {'a': R1}, ('a',), 'all', 1, None),
         ]
     specs = []
     for name, graph, tasks, fails, emit, budget, devs in rows:
@@ -74,8 +75,10 @@ def make_factory(spec, monitors=None):
 
 
 NEED = ('dev:hold', 'dev:lose', 'dev:dup', 'dev:early', 'dev:snap',
-        'dev:pollcmd', 'deliver-late', 'stale-received', 'backward-received',
-        'backward-poll-seen', 'final-judged', 'pm:(polled)', 'pm:(received)')
+        'dev:pollcmd', 'dev:burst', 'deliver-late', 'stale-received',
+        'backward-received', 'backward-poll-seen', 'batched-received',
+        'timer-poll-seen',
+        'final-judged', 'pm:(polled)', 'pm:(received)')
 
 
 def run(ctx: Ctx) -> Result:
